@@ -215,11 +215,11 @@ mod proofs {
     fn display_unrecognized_eof_0() { shown(&ParseError::UnrecognizedEof { location: Ch(b'9'), expected: expected_n(0) }, b"Unrecognized EOF found at 9"); }
     #[kani::proof] #[kani::unwind(60)]
     fn display_unrecognized_eof_1() { shown(&ParseError::UnrecognizedEof { location: Ch(b'9'), expected: expected_n(1) }, b"Unrecognized EOF found at 9\nExpected one of a"); }
-    #[kani::proof] #[kani::unwind(60)]
+    #[kani::proof] #[kani::unwind(90)]
     fn display_unrecognized_token_2() { shown(&ParseError::UnrecognizedToken { token: (Ch(b'1'), Ch(b't'), Ch(b'2')), expected: expected_n(2) }, b"Unrecognized token `t` found at 1:2\nExpected one of a or b"); }
-    #[kani::proof] #[kani::unwind(60)]
+    #[kani::proof] #[kani::unwind(90)]
     fn display_unrecognized_token_3() { shown(&ParseError::UnrecognizedToken { token: (Ch(b'1'), Ch(b't'), Ch(b'2')), expected: expected_n(3) }, b"Unrecognized token `t` found at 1:2\nExpected one of a, b or c"); }
-    #[kani::proof] #[kani::unwind(60)]
+    #[kani::proof] #[kani::unwind(90)]
     fn display_unrecognized_token_4() { shown(&ParseError::UnrecognizedToken { token: (Ch(b'1'), Ch(b't'), Ch(b'2')), expected: expected_n(4) }, b"Unrecognized token `t` found at 1:2\nExpected one of a, b, c or d"); }
     // @PLAYBACK@
 }
